@@ -33,7 +33,7 @@ func C11(c *vf.Ctx) {
 	c.Assume = append(c.Assume, sysAssumeObs, sysAssumeUnits,
 		"the server's base context carries no metadata of its own",
 		"codec part: the wire description of the metadata encoding is the one transcribed in spec/MetaCodec.tla (protobuf map<string,string> field 1)")
-	nT, nR := sizes(c, 4, 50, 16, 260)
+	nT, nR := sizes(c, 8, 140, 24, 900)
 	fam := sysFamily{prop: "C11", maxRPC: 4, plen: 22,
 		cfgs: []sys.Config{
 			{Small: true, Soft: true, Threads: thr2},
@@ -90,7 +90,7 @@ func C10(c *vf.Ctx) {
 	c.Assume = append(c.Assume, sysAssumeObs, sysAssumeUnits,
 		"connection part: the scripted handler's error for stream s is the text \"e<s>\" with code 4000+s attached under two layers of wrapping",
 		"codec part: the error payload layout is the one transcribed in spec/ErrCodec.tla")
-	nT, nR := sizes(c, 4, 50, 16, 260)
+	nT, nR := sizes(c, 8, 140, 24, 900)
 	var w0 *sys.World
 	var res string
 	fam := sysFamily{prop: "C10", maxRPC: 3, plen: 16,
